@@ -260,6 +260,13 @@ def recvAnn (w : W) (idx : Nat) (r0 : Cand) : W :=
     let r := { r0 with src := ps.cfg.srcInfo w.g, ts := w.tick }
     let rej := inboundRejected w.g ps.cfg r
     let (adj', r') := adjAnnounce ps.adj r rej
+    -- propagateUpdate strips LOCAL_PREF from an eBGP peer's route IN PLACE: the object stored in
+    -- the Adj-RIB-In is the same one, so the stored entry loses the attribute too (a rejected
+    -- route is handed on as a clone and keeps it)
+    let adj' := if !rej && !ps.cfg.isIBGP w.g then
+        { adj' with entries := adj'.entries.map (fun e =>
+            if adjKeyEq e.r r' then { e with r := { e.r with localPref := none } } else e) }
+      else adj'
     let w := w.updPeer idx (fun ps => { ps with adj := adj' })
     -- a route rejected by the loop checks replaces whatever was installed for its key
     propagate w ps.cfg r' rej
